@@ -21,6 +21,36 @@ CLAIMS = {
         design='§5 C15, §4.1'),
 }
 
+CLAIMS['C12'] = dict(
+    text=('Decided by the solver on the real Transform::from_instance / cascade / rotate / reflect_vert / translate / '
+          'Point::transform: (T1) from_instance equals translate∘rotate∘reflect entry by entry for ANY angle (sine and '
+          'cosine are two unconstrained symbolic doubles) and every i32 location; (T2) for each of the ten right-angle '
+          'orientations the image of a point is the exact integer map — every i32 point at location 0, all points and '
+          'locations on the grid ±128, and (thorough) grid points with every i32 location; (T3) chains of depth 2..4 of '
+          'right-angle placements compose to the exact integer composition for every i32 point (orientations and offsets '
+          'concrete per instance, 52 instances incl. extreme offsets; quick tier runs a VERIF_SEED-chosen 6) and, thorough, '
+          'depth 2 with symbolic offsets on the grid ±8. Bounded model checking, not a proof for all inputs.'),
+    note=('sin/cos are environment: for right angles a table keyed on the bit pattern of to_radians(k*90) filled from this '
+          'platform\'s libm on every run; for T1 two symbolic doubles in [-1,1] (no identity assumed). Layout::flatten over '
+          'Ptr<Cell> hierarchies did not leave symbolic execution in 20 min (recursion through Arc<RwLock>) and is NOT '
+          'covered: the claim is about the transform algebra flatten_helper calls. General angles beyond T1 and the '
+          'half-unit tolerance sampling in the quantifier have no solver counterpart. Symbolic-offset nesting is limited '
+          'to ±8 because float additions with two symbolic operands cost minutes per bit of range.'),
+    design='§5 C12, §4.1')
+CLAIMS['C13'] = dict(
+    text=('Rect::contains over all of i64 (any corner order), Polygon::contains against an exact integer oracle '
+          '(cross-product boundary test + half-open crossing rule, no division) for EVERY simple polygon with 3 vertices on '
+          'the grid ±3 (thorough: ±6, 4 vertices ±4, 5 vertices ±3, 6 vertices ±2) and 4 vertices on ±1, every query point '
+          'of the same grid, repeated consecutive vertices, 2^20-sized coordinates (thorough), Manhattan Path::contains for '
+          '2-3 (4) points with widths 0..6 (must-contain within half width perpendicular to a segment, must-exclude beyond '
+          'half width in Chebyshev distance), and Vec<Point>::bbox / BoundBox::contains for 5 points over i32. Each is one '
+          'SAT query over all values in the bound.'),
+    note=('Bounds are small because Polygon::contains multiplies 64-bit symbolic integers (a 4-vertex polygon on ±1 '
+          'already takes 5 min). "Simple" is the harness precondition (non-adjacent edges disjoint, no fold-back, no '
+          'zero-length edge; collinear vertices allowed; a triangle is simple iff non-degenerate). Path corners/ends are '
+          'left unconstrained as in the statement; zero-length path segments are outside.'),
+    design='§5 C13')
+
 NOT_APPLICABLE = {
     'C06': 'every import kernel is gated by std HashMap/HashSet (cell_map, Layers, label buckets, GdsDepOrder); hash containers neither execute under CBMC in 20 min nor can be stubbed (Kani rejects generic-method stubs) — DESIGN §6; the flattening/containment halves are checked under C12/C13',
     'C17': 'all six orderers are entirely a DFS over HashSet::{contains,insert,remove}; a 3-node instance did not leave symbolic execution in 20 min even with the hasher stubbed; no code left once the set is removed — DESIGN §6',
